@@ -282,6 +282,12 @@ pub fn random_plan(rng: &mut Rng, max_depth: usize) -> ExPlan {
     plan.mode = *rng.pick(&[Mode::Lockstep, Mode::Eager, Mode::Paced]);
     plan.sched = Sched::random(rng);
     plan.tail = random_tail(rng);
+    if rng.pct(4) {
+        // an acknowledgement that carries data (short or extended form)
+        let n = *rng.pick(&[1usize, 2, 3, 16, 254, 255, 300]);
+        plan.ack = rc::apdu((0x80, 0x00), &rng.bytes(n));
+        plan.fault = "ack_with_data".into();
+    }
     if plan.mode == Mode::Paced {
         let len = plan.stream().len();
         plan.paced_cuts = random_paced_cuts(rng, len);
@@ -335,6 +341,13 @@ pub fn shrink_explan(plan: &ExPlan) -> Vec<ExPlan> {
         for i in 0..plan.replies.len().saturating_sub(1) {
             let mut p = plan.clone();
             p.replies.remove(i);
+            // keep the "malformed by construction" marks on the same frames
+            p.malformed_replies.retain(|m| *m as usize != i);
+            for m in p.malformed_replies.iter_mut() {
+                if *m as usize > i {
+                    *m -= 1;
+                }
+            }
             push(p);
         }
     }
